@@ -13,7 +13,13 @@ import (
 	"verifharness/gen"
 	"verifharness/proj"
 	"verifharness/zoo"
+
+	hessian "github.com/vogo/gohessian"
 )
+
+func hessianExtract(v interface{}) (map[string]reflect.Type, map[string]string) {
+	return hessian.ExtractTypeNameMap(v)
+}
 
 // emitter runs one round trip per generated value and writes the event.
 type emitter struct {
@@ -26,15 +32,31 @@ type emitter struct {
 }
 
 func (e *emitter) emit(label string, v interface{}) {
+	e.emitEv(label, func() proj.M { return drv.RoundTrip(v) })
+}
+
+func (e *emitter) emitEv(label string, mk func() proj.M) {
 	id := e.n
 	e.n++
 	if e.only >= 0 && id != e.only {
 		return
 	}
-	ev := drv.RoundTrip(v)
+	ev := mk()
 	ev["label"] = label
 	ev["fam"] = e.fam
+	if ev["ev"] == "fault" {
+		ev["v"] = proj.M{"label": label}
+		if len(e.samples) < 3 && ev["kind"] != "" {
+			e.samples = append(e.samples, proj.M{"label": label, "writes": ev["writes"], "returned_error": ev["ret"]})
+		}
+	}
 	vj, _ := json.Marshal(ev["v"])
+	if ev["ev"] == "stream" {
+		ev2 := proj.M{"values": len(ev["ends"].([]int)), "octets": len(ev["out"].([]int)), "api": ev["api"]}
+		if len(e.samples) < 3 {
+			e.samples = append(e.samples, proj.M{"label": label, "stream": ev2})
+		}
+	}
 	h := sha1.Sum(vj)
 	if len(vj) > 40 { // non-trivial: more than a bare nil / single small leaf
 		e.distinct[h] = true
@@ -359,6 +381,399 @@ func famC10(e *emitter, g *gen.G, thorough bool) {
 	}
 }
 
+// ---- C04: pointer graphs -------------------------------------------------
+
+// assign decodes idx as a number in base (k+1) giving each of the slots a
+// target in {nil, n0..n(k-1)}.
+func digits(idx, base, n int) []int {
+	d := make([]int, n)
+	for i := range d {
+		d[i] = idx % base
+		idx /= base
+	}
+	return d
+}
+
+func pow(b, n int) int {
+	r := 1
+	for i := 0; i < n; i++ {
+		r *= b
+	}
+	return r
+}
+
+func famC04(e *emitter, g *gen.G, thorough bool) {
+	maxK := 3
+	if thorough {
+		maxK = 4
+	}
+	// (i) every edge assignment over K nodes with two pointer fields each
+	for k := 1; k <= maxK; k++ {
+		total := pow(k+1, 2*k)
+		for idx := 0; idx < total; idx++ {
+			ns := make([]*zoo.Node, k)
+			for i := range ns {
+				ns[i] = &zoo.Node{Name: fmt.Sprintf("n%d", i)}
+			}
+			d := digits(idx, k+1, 2*k)
+			for i := range ns {
+				if d[2*i] > 0 {
+					ns[i].A = ns[d[2*i]-1]
+				}
+				if d[2*i+1] > 0 {
+					ns[i].B = ns[d[2*i+1]-1]
+				}
+			}
+			e.emit(fmt.Sprintf("ab%d/%d", k, idx), ns[0])
+		}
+	}
+	// (ii) every edge assignment over 2 nodes x every filler in front of the pointers
+	fillers := []func(n *zoo.FNode){
+		func(n *zoo.FNode) {},
+		func(n *zoo.FNode) { n.FT = time.Unix(1500000000, 0) },
+		func(n *zoo.FNode) { n.FT = time.Unix(1500000000, 5000000) },
+		func(n *zoo.FNode) { n.FM = map[string]int32{} },
+		func(n *zoo.FNode) { n.FM = map[string]int32{"a": 1} },
+		func(n *zoo.FNode) { n.FS = "filler" },
+		func(n *zoo.FNode) { n.FB = []byte{1, 2, 3} },
+		func(n *zoo.FNode) { n.FL = []int32{} },
+		func(n *zoo.FNode) { n.FL = []int32{7, 8} },
+		func(n *zoo.FNode) { n.FP = &zoo.Small{Name: "p"} },
+		func(n *zoo.FNode) {
+			n.FT = time.Unix(1, 0)
+			n.FM = map[string]int32{}
+			n.FL = []int32{}
+			n.FB = []byte{}
+		},
+		func(n *zoo.FNode) {
+			n.FT = time.Unix(2, 500000000)
+			n.FM = map[string]int32{"z": 2}
+			n.FL = []int32{1}
+			n.FS = "s"
+			n.FB = []byte{9}
+			n.FP = &zoo.Small{N: 4}
+		},
+	}
+	maxKF := 2
+	if thorough {
+		maxKF = 3
+	}
+	for k := 1; k <= maxKF; k++ {
+		total := pow(k+1, 2*k)
+		for idx := 0; idx < total; idx++ {
+			for fi, fill := range fillers {
+				ns := make([]*zoo.FNode, k)
+				for i := range ns {
+					ns[i] = &zoo.FNode{}
+					fill(ns[i])
+				}
+				d := digits(idx, k+1, 2*k)
+				for i := range ns {
+					if d[2*i] > 0 {
+						ns[i].A = ns[d[2*i]-1]
+					}
+					if d[2*i+1] > 0 {
+						ns[i].B = ns[d[2*i+1]-1]
+					}
+				}
+				e.emit(fmt.Sprintf("fill%d/%d/f%d", k, idx, fi), ns[0])
+			}
+		}
+	}
+	// (iii) slices and maps of pointers: every choice of <=2 elements / <=1 entry over 2 nodes,
+	// the same slice / map shared by both nodes, and behind pointers (PL, PM)
+	for idx := 0; idx < 13*13; idx++ {
+		ns := []*zoo.Node{{Name: "n0"}, {Name: "n1"}}
+		pick := func(c int) []*zoo.Node {
+			tgt := func(x int) *zoo.Node {
+				if x == 0 {
+					return nil
+				}
+				return ns[x-1]
+			}
+			switch {
+			case c == 0:
+				return nil
+			case c <= 3:
+				return []*zoo.Node{tgt(c - 1)}
+			default:
+				c -= 4
+				return []*zoo.Node{tgt(c / 3), tgt(c % 3)}
+			}
+		}
+		ns[0].L = pick(idx % 13)
+		ns[1].L = pick(idx / 13)
+		ns[0].A = ns[1]
+		e.emit(fmt.Sprintf("lists/%d", idx), ns[0])
+		ns2 := []*zoo.Node{{Name: "m0"}, {Name: "m1"}}
+		mk := func(c int) map[string]*zoo.Node {
+			switch c % 4 {
+			case 0:
+				return nil
+			case 1:
+				return map[string]*zoo.Node{"k": nil}
+			case 2:
+				return map[string]*zoo.Node{"k": ns2[0]}
+			default:
+				return map[string]*zoo.Node{"k": ns2[1]}
+			}
+		}
+		ns2[0].M = mk(idx)
+		ns2[1].M = mk(idx / 4)
+		ns2[0].B = ns2[1]
+		if idx%3 == 0 {
+			ns2[1].M = ns2[0].M // the same map in both
+		}
+		e.emit(fmt.Sprintf("maps/%d", idx), ns2[0])
+	}
+	for v := 0; v < 16; v++ {
+		a, b, c := &zoo.Node{Name: "a"}, &zoo.Node{Name: "b"}, &zoo.Node{Name: "c"}
+		shared := []*zoo.Node{b, c, a}
+		pl := zoo.Nodes{c, b}
+		pm := map[string]*zoo.Node{"x": a, "y": b}
+		a.L = shared
+		if v&1 != 0 {
+			b.L = shared
+		}
+		a.PL = &pl
+		if v&2 != 0 {
+			c.PL = &pl
+		}
+		a.PM = &pm
+		if v&4 != 0 {
+			b.PM = &pm
+		}
+		a.M = map[string]*zoo.Node{"self": a, "b": b}
+		if v&8 != 0 {
+			c.M = a.M
+		}
+		a.A, a.B = b, c
+		e.emit(fmt.Sprintf("shared/%d", v), a)
+	}
+	// (iv) seeded random graphs, up to ~200 nodes
+	nr := 30
+	if thorough {
+		nr = 1500
+	}
+	for i := 0; i < nr; i++ {
+		g.Reset()
+		g.MaxDepth = 3 + i%6
+		g.MaxLen = 1 + i%4
+		g.Share = 0.4
+		g.ShareC = 0.3
+		g.NilP = 0.15
+		var t reflect.Type
+		switch i % 3 {
+		case 0:
+			t = reflect.TypeOf(zoo.Node{})
+		case 1:
+			t = reflect.TypeOf(zoo.FNode{})
+		default:
+			t = reflect.TypeOf(zoo.Ping{})
+		}
+		p := reflect.New(t)
+		g.Fill(p.Elem(), 0)
+		e.emit(fmt.Sprintf("rand/%d/%s", i, t), p.Interface())
+	}
+}
+
+// ---- C06: streams ----------------------------------------------------------
+
+func famC06(e *emitter, g *gen.G, thorough bool) {
+	ns := 70
+	if thorough {
+		ns = 2500
+	}
+	structs := []reflect.Type{reflect.TypeOf(zoo.Small{}), reflect.TypeOf(zoo.Scalars{}), reflect.TypeOf(zoo.Node{}),
+		reflect.TypeOf(zoo.Custom{}), reflect.TypeOf(zoo.Five{}), reflect.TypeOf(zoo.Derived{}), reflect.TypeOf(zoo.Ping{}),
+		reflect.TypeOf(zoo.FNode{}), reflect.TypeOf(zoo.W02{}), reflect.TypeOf(zoo.Conts{})}
+	for i := 0; i < ns; i++ {
+		n := 1 + g.R.Intn(50)
+		if i < 10 {
+			n = i + 1
+		}
+		g.Reset()
+		g.MaxLen = 3
+		g.MaxDepth = 3
+		vals := make([]interface{}, 0, n)
+		var ptrs []interface{}
+		for j := 0; j < n; j++ {
+			switch c := g.R.Intn(14); {
+			case c == 0:
+				vals = append(vals, int32(g.Int64()))
+			case c == 1:
+				vals = append(vals, g.Int64())
+			case c == 2:
+				vals = append(vals, g.Float64())
+			case c == 3:
+				vals = append(vals, g.String(g.R.Intn(12), -1))
+			case c == 4:
+				vals = append(vals, g.R.Intn(2) == 0)
+			case c == 5:
+				vals = append(vals, nil)
+			case c == 6:
+				b := make([]byte, g.R.Intn(20))
+				g.R.Read(b)
+				vals = append(vals, b)
+			case c == 7:
+				vals = append(vals, g.Value(reflect.TypeOf([]int32{}), 0).Interface())
+			case c == 8:
+				vals = append(vals, g.Value(reflect.TypeOf(map[string]int32{}), 0).Interface())
+			case c == 9 && len(ptrs) > 0: // the very object sent earlier
+				vals = append(vals, ptrs[g.R.Intn(len(ptrs))])
+			case c == 10:
+				vals = append(vals, g.Time())
+			case c == 11:
+				vals = append(vals, []interface{}{int32(j), "s", g.Float64()})
+			default:
+				t := structs[g.R.Intn(len(structs))]
+				p := reflect.New(t)
+				g.Fill(p.Elem(), 0)
+				if g.R.Intn(3) == 0 {
+					vals = append(vals, p.Elem().Interface()) // by value
+				} else {
+					vals = append(vals, p.Interface())
+					ptrs = append(ptrs, p.Interface())
+				}
+			}
+		}
+		vs := vals
+		e.emitEv(fmt.Sprintf("enc/%d/n%d", i, n), func() proj.M { return drv.Stream("enc", vs) })
+		e.emitEv(fmt.Sprintf("ser/%d/n%d", i, n), func() proj.M { return drv.Stream("ser", vs) })
+	}
+}
+
+// ---- C15: failing writer ---------------------------------------------------
+
+func famC15(e *emitter, g *gen.G, thorough bool) {
+	vals := []interface{}{nil, int32(5), "hello", []byte{1, 2, 3}, true, 1.5, time.Unix(1500000000, 0), (*zoo.Small)(nil),
+		zoo.Small{Name: "a", N: 1}, &zoo.Small{Name: "b"}, []int32{1, 2, 3}, []string{"a", "", "b"}, []interface{}{int32(1), "x", nil},
+		map[string]int32{"k": 1}, map[string]int32{}, zoo.NamedMap{"a": 1}, []zoo.Small{{Name: "x"}, {Name: "y"}},
+		zoo.CustomHolder{Title: "t", Items: []zoo.Custom{{Key: "k", Val: "v"}}, One: zoo.Custom{Key: "o"}},
+		wideElems(18), zoo.Scalars{S: "s", Bin: []byte{9}, T: time.Unix(5, 5000000)}, zoo.Conts{MS: map[string]string{"a": "b"}, LL: [][]int32{{1}, {}}},
+	}
+	n1 := &zoo.Node{Name: "n1"}
+	n2 := &zoo.Node{Name: "n2", A: n1, B: n1, L: []*zoo.Node{n1, nil}, M: map[string]*zoo.Node{"k": n1}}
+	n1.A = n2
+	vals = append(vals, n2, make([]int32, 300), g.String(5000, -1), make([]byte, 9000))
+	nr := 25
+	if thorough {
+		nr = 600
+	}
+	for i := 0; i < nr; i++ {
+		g.Reset()
+		g.MaxLen = 1 + i%3
+		t := reflect.TypeOf(zooTypes[g.R.Intn(14)])
+		p := reflect.New(t)
+		g.Fill(p.Elem(), 0)
+		vals = append(vals, p.Interface())
+	}
+	for vi, v := range vals {
+		typMap, nameMap := extractMaps(v)
+		for _, api := range drv.FaultAPIs {
+			var w int
+			api, v, vi := api, v, vi
+			e.emitEv(fmt.Sprintf("clean/%s/v%d", api, vi), func() proj.M {
+				ev := drv.FaultRun(api, v, nameMap, typMap, 0, "")
+				return ev
+			})
+			// number of writes of a clean run (recomputed here so that -only works)
+			w = len(drv.FaultRun(api, v, nameMap, typMap, 0, "")["writes"].([][]int))
+			off := 0
+			if api == "Serializer.Write" {
+				off = 1 // the first value's single write precedes
+				w--
+			}
+			_ = off
+			ks := []int{}
+			for k := 1; k <= w; k++ {
+				if w <= 60 || thorough || k <= 20 || k > w-20 || k%7 == 0 {
+					ks = append(ks, k)
+				}
+			}
+			for _, k := range ks {
+				for _, kind := range []string{"once", "fromk", "short", "shorterr"} {
+					k, kind := k, kind
+					e.emitEv(fmt.Sprintf("%s/%s/v%d/k%d", kind, api, vi, k), func() proj.M {
+						return drv.FaultRun(api, v, nameMap, typMap, k, kind)
+					})
+				}
+			}
+		}
+	}
+}
+
+func extractMaps(v interface{}) (tm map[string]reflect.Type, nm map[string]string) {
+	defer func() {
+		if recover() != nil {
+			tm, nm = map[string]reflect.Type{}, map[string]string{}
+		}
+	}()
+	if v == nil {
+		return map[string]reflect.Type{}, map[string]string{}
+	}
+	return hessianExtract(v)
+}
+
+// famC13: supported values with one sub-value at every position replaced by
+// a value of every unsupported kind.
+func famC13(e *emitter, g *gen.G, thorough bool) {
+	bads := map[string]func() interface{}{
+		"chan":       func() interface{} { return make(chan int) },
+		"func":       func() interface{} { return func() {} },
+		"complex64":  func() interface{} { return complex64(1 + 2i) },
+		"complex128": func() interface{} { return complex128(1 + 2i) },
+		"chanarr":    func() interface{} { return [1]chan int{make(chan int)} },
+		"chanslice":  func() interface{} { return []chan int{make(chan int)} },
+		"cplxslice":  func() interface{} { return []complex64{1} },
+		"uintptr":    func() interface{} { return uintptr(7) },
+	}
+	names := []string{"chan", "func", "complex64", "complex128", "chanarr", "chanslice", "cplxslice", "uintptr"}
+	reps := 1
+	if thorough {
+		reps = 20
+	}
+	for r := 0; r < reps; r++ {
+		for _, nm := range names {
+			mk := bads[nm]
+			e.emit("top/"+nm, mk())
+			for n := 1; n <= 4; n++ {
+				for pos := 0; pos < n; pos++ {
+					l := make([]interface{}, n)
+					for i := range l {
+						l[i] = int32(g.R.Intn(100))
+					}
+					l[pos] = mk()
+					e.emit(fmt.Sprintf("list%d@%d/%s", n, pos, nm), l)
+					e.emit(fmt.Sprintf("inlist%d@%d/%s", n, pos, nm), zoo.BadInList{L: l})
+					e.emit(fmt.Sprintf("nested%d@%d/%s", n, pos, nm), []interface{}{"x", l, zoo.Small{Name: "s"}})
+					e.emit(fmt.Sprintf("typedouter%d@%d/%s", n, pos, nm), [][]interface{}{{int32(1)}, l})
+				}
+			}
+			e.emit("mapval/"+nm, map[string]interface{}{"a": int32(1), "b": mk(), "c": "z"})
+			e.emit("mapval1/"+nm, map[string]interface{}{"b": mk()})
+			e.emit("inmap/"+nm, &zoo.BadInMap{M: map[string]interface{}{"k": mk()}})
+			e.emit("mapkey/"+nm, func() interface{} {
+				defer func() { recover() }()
+				return map[interface{}]interface{}{mk(): int32(1)}
+			}())
+			e.emit("deep/"+nm, []interface{}{map[string]interface{}{"l": []interface{}{zoo.BadInList{L: []interface{}{int32(5), mk()}}}}})
+		}
+		e.emit("field/chan", zoo.BadChan{Ok: 1, C: make(chan int)})
+		e.emit("field/nilchan", zoo.BadChan{Ok: 1})
+		e.emit("field/func", &zoo.BadFunc{Ok: 2, F: func() {}})
+		e.emit("field/nilfunc", &zoo.BadFunc{Ok: 2})
+		e.emit("field/cplx", zoo.BadCplx{Ok: 3, C: 1i})
+		e.emit("listofbad/chan", []zoo.BadChan{{Ok: 1, C: make(chan int)}})
+		e.emit("listofbad/cplx", []*zoo.BadCplx{{Ok: 1, C: 2}})
+		e.emit("mapofbad/func", map[string]zoo.BadFunc{"f": {F: func() {}}})
+		// controls: the same shapes without the bad element must encode
+		e.emit("control/list", []interface{}{int32(1), "a", zoo.Small{Name: "s"}})
+		e.emit("control/map", map[string]interface{}{"a": int32(1), "c": "z"})
+		e.emit("control/inlist", zoo.BadInList{L: []interface{}{int32(1), int64(2)}})
+	}
+}
+
 func runCodec(fam string, seed int64, tier, out string, shards, only int) {
 	w := newShardWriter(out, "trace", shards)
 	defer w.close()
@@ -379,6 +794,18 @@ func runCodec(fam string, seed int64, tier, out string, shards, only int) {
 	case "c09":
 		famC09(e, g, th)
 		rule = "string lengths around short/medium/chunk boundaries x 6 content classes; binary lengths around 15/1023/4096k; top, field, list, map"
+	case "c06":
+		famC06(e, g, th)
+		rule = "sequences of 1..50 mixed values (scalars, strings, binaries, lists, maps, structs of 10 zoo types by value and by pointer, earlier pointers sent again) through Encoder.WriteObject/Decoder.ReadObject and Serializer.WriteTo+Write/ReadFrom+Read over a counting reader without read-ahead"
+	case "c15":
+		famC15(e, g, th)
+		rule = "for each value and each writer-taking entry point: every index k of the k-th Write of the clean run x {error once, error from k on, short count, short count with error}; distinct = distinct (value, api, k, kind)"
+	case "c04":
+		famC04(e, g, th)
+		rule = "every edge assignment over <=3 (thorough <=4) nodes with two pointer fields; x every filler kind for <=2 (3) nodes; slices/maps of pointers incl. shared ones and ones behind pointers; seeded random graphs"
+	case "c13":
+		famC13(e, g, th)
+		rule = "lists/maps/structs/nested values with one sub-value at every position replaced by chan, func, complex64/128, arrays and slices of those, uintptr; plus well-formed controls"
 	case "c10":
 		famC10(e, g, th)
 		rule = "instants at +-2^31 s, epoch, year 1/1677/1678/2262/2263/9999 boundaries +-1s x sub-second offsets, random; top, field, list"
